@@ -318,3 +318,57 @@ contract(F + "AbstractGrader.__call__", props=["C01", "C02", "C11", "C17"],
             "has_attr(self, 'config', 'debuglog', 'log_created') and same(self.config, old(self.config)) and same(self.log_created, False) and is_list(self.debuglog) and allocated(self.debuglog)",
         ])},
     nonlinear='abstract')
+
+
+# ---------------------------------------------------------------------------------------------- ItemGrader.__call__ : the answer-inference state machine (C11)
+contract(F + "ItemGrader.infer_from_expect", props=["C11"],
+    ensures=["same(result, expect)"], modifies=[], pure=True,
+    note="declared contract of the overridable method: returns the answer derived from expect (here: expect itself); overrides may raise and must not write grader state")
+
+INFER = dict(params=['expect_arg'], ensures=["same(result, ufn('INFERRED', self, expect_arg))"], exsures={"*": "True"}, modifies=[],
+             note="infer_from_expect (possibly overridden): a deterministic function of (grader, expect), may raise, writes nothing")
+SCHEMA_ANSWERS = dict(params=['inferred_arg'], ensures=["True"], exsures={"*": "True"}, modifies=[],
+                      note="A10: schema_answers validates into a fresh canonical tuple or raises; it does not write grader state")
+POST_SCHEMA = dict(params=['answers_arg'], ensures=["same(result, ufn('CANON', self, answers_arg))"], exsures={"*": "True"}, modifies=[],
+                   note="post_schema_ans_val (possibly overridden): returns the validated answers or raises; it does not write grader state (config['answers'] in particular)")
+SUPER_CALL = dict(params=['expect_arg', 'input_arg'],
+                  ensures=["has_attr(self, 'config', 'inferring_answers', 'log_created')", "same(self.log_created, False)", "same(self.config, old(self.config))", "same(self.config['answers'], old(self.config['answers']))",
+                           "same(self.inferring_answers, old(self.inferring_answers))"],
+                  exsures={"*": ["has_attr(self, 'config', 'inferring_answers', 'log_created')", "same(self.log_created, False)", "same(self.config, old(self.config))",
+                                 "same(self.config['answers'], old(self.config['answers']))", "same(self.inferring_answers, old(self.inferring_answers))"]},
+                  modifies=["self", "self.debuglog if has_attr(self, 'debuglog') else nothing"],
+                  note="AbstractGrader.__call__ (contract drafted above): clears log_created, never touches config['answers'] / inferring_answers, may raise")
+CREATE_LOG = dict(params=['input_arg'], ensures=["has_attr(self, 'debuglog', 'log_created', 'config', 'inferring_answers')", "is_list(self.debuglog) and allocated(self.debuglog)", "same(self.log_created, True)",
+                                                 "implies(not old(self.log_created), fresh(self.debuglog))",
+                                                 "same(self.config, old(self.config))", "same(self.config['answers'], old(self.config['answers']))",
+                                                 "same(self.inferring_answers, old(self.inferring_answers))"],
+                  modifies=["self"], note="create_debuglog: (re)creates the log and sets log_created; trusted (formatting)")
+LOG = dict(params=['m'], requires=["has_attr(self, 'debuglog')"], ensures=["same(self.log_created, old(self.log_created))"], modifies=["self.debuglog"], note="AbstractGrader.log appends to the debug log")
+JSON = dict(params=['x'], ensures=["is_str(result)"], exsures={"*": "True"}, pure=False, modifies=[], note="json.dumps: some text, may raise on exotic values")
+
+
+@spec
+def ig_self(self):
+    return (has_attr(self, 'config', 'inferring_answers', 'log_created') and is_dict(self.config) and allocated(self.config) and not same(self.config, self)
+            and has_keys(self.config, 'answers') and is_bool(self.inferring_answers) and same(self.log_created, False))
+
+
+contract(F + "ItemGrader.__call__", props=["C11"],
+    requires=["ig_self(self)", "is_dict(kwargs)"],
+    ghost={'INFERS': "not is_none(expect) and (self.inferring_answers or not self.config['answers'])",
+           'NEW': "ufn('CANON', self, ufn('SCHEMA', self, ufn('INFERRED', self, expect)))"},
+    callees={"self.infer_from_expect": INFER, "self.schema_answers": dict(SCHEMA_ANSWERS, ensures=["same(result, ufn('SCHEMA', self, inferred_arg))"]),
+             "self.post_schema_ans_val": POST_SCHEMA, "self.create_debuglog": CREATE_LOG, "self.log": LOG, "json.dumps": JSON,
+             "super(ItemGrader, self).__call__": SUPER_CALL},
+    # a call that raises leaves either the old state (inference or validation failed: all-or-nothing) or the state of a successful inference
+    exsures={"*": ["same(self.log_created, False)",
+                   "(same(self.config['answers'], old(self.config['answers'])) and same(self.inferring_answers, old(self.inferring_answers))) "
+                   "  or (INFERS and same(self.config['answers'], NEW) and same(self.inferring_answers, True))"]},
+    ensures=["same(self.log_created, False)",
+             # answers are inferred exactly when expect is given and the grader has no configured answers (or is already inferring) ...
+             "implies(INFERS, same(self.inferring_answers, True))",
+             "implies(INFERS, same(self.config['answers'], NEW))",
+             # ... otherwise expect is ignored and nothing about the answers changes
+             "implies(not INFERS, same(self.config['answers'], old(self.config['answers'])) and same(self.inferring_answers, old(self.inferring_answers)))",
+             "same(self.config, old(self.config))"],
+    modifies=["self", "self.config", "self.debuglog if has_attr(self, 'debuglog') else nothing"])
